@@ -8,6 +8,7 @@ CONSTANTS
   Kinds = {}
   HSh <- HShFin
   AsVars = FALSE
+  Pre <- PreNone
   MaxWord = 6
   Dump = TRUE
 INVARIANT RunWellFormed
